@@ -80,6 +80,9 @@ def ctx_sexp(callables=()):
 # ----------------------------------------------------------------------------------------------- populations
 
 STRINGS = ['', 'a', 'b', 'ab', 'ba', 'x y', 'Zz', 'a1']
+# integers beyond the range in which a float represents every integer (2**53): up to about 2**70, both signs
+BIG_INTS = [2 ** 53 + 1, 2 ** 53 + 3, -(2 ** 53 + 1), 3 ** 40, -(3 ** 40), 2 ** 55 - 7, 2 ** 62 - 1, -(2 ** 62 + 5),
+            2 ** 64 + 11, 2 ** 70 + 13, -(2 ** 70 + 9), 10 ** 18 + 7, 9007199254740993, 36028797018963971]
 
 
 def gen_population(rng, max_per_class=4):
@@ -101,6 +104,8 @@ def gen_population(rng, max_per_class=4):
                     row[a] = rng.randint(50, 60)
                 elif t == 'integer':
                     row[a] = rng.choice([0, 1, 1, 2, 3, 5, 7, -1, -2, -7, 10])
+                    if rng.random() < 0.06:
+                        row[a] = rng.choice(BIG_INTS)
                 elif t == 'string':
                     row[a] = rng.choice(STRINGS)
                 else:
@@ -386,7 +391,8 @@ class ProgGen(object):
 
     def __init__(self, rng, max_stmts=25, max_depth=3, params=(), calls=(), self_cls=None, derived=(),
                  allow_delete=True, allow_mutation=True, enums=(), consts=(), var_prefix='', schema=None,
-                 ret_ty='any', rec_call=None, derived_attr=None, create_in_loops=True, max_call_sites=99):
+                 ret_ty='any', rec_call=None, derived_attr=None, create_in_loops=True, max_call_sites=99,
+                 big_ints=0.05, derived_chain=None):
         self.rng = rng
         schema = schema or DEFAULT_SCHEMA
         self.classes = schema['classes']          # {class: [(attr, ty, referential)]}
@@ -399,6 +405,8 @@ class ProgGen(object):
         self.create_in_loops = create_in_loops    # callables: no, so that the population grows linearly in the number of calls
         self.call_sites = max_call_sites          # how many more call sites this body may get
         self.foreach_depth = 0
+        self.big_ints = big_ints                  # probability of a literal beyond 2**53 where an integer literal is generated
+        self.derived_chain = derived_chain        # (attribute, helper operation or None): read it on ANOTHER instance
         self.budget = max_stmts
         self.max_depth = max_depth
         self.params = list(params)            # [(name, ty)]
@@ -418,7 +426,7 @@ class ProgGen(object):
         self.uppercase = rng.random() < 0.15
         self.pure_only = 0
         self.str_bound = 8       # upper bound on the length of any string value so far (growth control)
-        self.int_bits = 8        # upper bound on the bit size of any integer value so far
+        self.int_bits = 72       # upper bound on the bit size of any integer value so far (attribute values reach 2**70)
 
     # -- environment ---------------------------------------------------------------------------
     def fresh(self, stem):
@@ -573,6 +581,8 @@ class ProgGen(object):
             if self.enums and r.random() < 0.3:
                 en, names = r.choice(self.enums)
                 return ['enum', en, r.choice(names)]
+            if r.random() < self.big_ints:
+                return ['int', r.choice(BIG_INTS)]
             return ['int', r.choice([0, 1, 2, 3, 4, 5, 7, 10, -1, -2, -3, -5, 12])]
         c = r.random()
         if c < 0.1 and self.calls:
@@ -586,8 +596,15 @@ class ProgGen(object):
         if c < 0.3:
             return ['un', r.choice(['-', '-', '+']), self._int(depth - 1, False, extra)]
         if c < 0.45:
-            # division by a non-zero literal: negative operands on either side exercise truncation toward zero
-            return ['bin', '/', self._int(depth - 1, False, extra), ['int', r.choice([1, 2, 3, 4, 5, 7, -1, -2, -3, -4])]]
+            # division by a non-zero literal: negative operands on either side exercise truncation toward zero,
+            # operands beyond 2**53 exercise exactness
+            num = self._int(depth - 1, False, extra)
+            if r.random() < 3 * self.big_ints:
+                num = ['bin', r.choice(['+', '-']), ['int', r.choice(BIG_INTS)], num]
+            den = ['int', r.choice([1, 2, 3, 4, 5, 7, -1, -2, -3, -4])]
+            if r.random() < self.big_ints:
+                den = ['int', r.choice([2 ** 53 + 1, -(2 ** 53 + 3), 3 ** 20])]
+            return ['bin', '/', num, den]
         if c < 0.5:
             # % stays on the non-negative domain: (e * e) % positive literal
             x = self._int(depth - 1, True, extra)
@@ -670,6 +687,29 @@ class ProgGen(object):
     # -- statements ----------------------------------------------------------------------------
     def gen_program(self):
         prelude = []
+        if self.derived_attr is not None:
+            # the value depends on the instance: the attributes of self are folded into it by the epilogue
+            n1, n2 = self.fresh('i'), self.fresh('s')
+            prelude += [['assign', n1, ['attr', ['self'], 'n']], ['assign', n2, ['attr', ['self'], 's']]]
+            self.declare(n1, V('integer', frozen=True))
+            self.declare(n2, V('string', frozen=True))
+        if self.derived_chain is not None:
+            # the same-named derived attribute of ANOTHER instance (the one whose n is one less: the chain ends),
+            # read directly or through an operation; optionally after this walker has a pending value of its own
+            attr, helper = self.derived_chain
+            p, v = self.fresh(self.self_cls.lower()), self.fresh('i')
+            if self.rng.random() < 0.4:
+                prelude.append(['setattr', ['self'], attr, ['int', self.rng.choice([5, 70, -3])]])
+            prelude.append(['select_from', 'any', p, self.self_cls,
+                            ['bin', '==', ['attr', ['selected'], 'n'], ['bin', '-', ['attr', ['self'], 'n'], ['int', 1]]]])
+            prelude.append(['assign', v, ['int', 0]])
+            read = ['attr', ['var', p], attr]
+            if helper is not None and self.rng.random() < 0.4:
+                read = ['callo', ['var', p], helper, []]
+            prelude.append(['if', ['un', 'not_empty', ['var', p]],
+                            [['assign', v, ['bin', '+', read, ['int', 1]]]], [], None])
+            self.declare(p, V('inst', self.self_cls, ne=False))
+            self.declare(v, V('integer', frozen=True))
         if self.rec_call is not None:
             # some locals first, then the guarded recursive call; the locals are read again afterwards
             for _ in range(self.rng.randint(1, 2)):
@@ -820,7 +860,9 @@ class ProgGen(object):
             if self.allow_delete:
                 choices += [('delete', 7), ('delete_sel', 5)]
         if self.calls:
-            choices += [('call', 8)]
+            choices += [('call', 8), ('select_where_call', 5)]
+            if depth < self.max_depth and self.budget > 2:
+                choices += [('if_call', 5), ('while_call', 3)]
         if depth < self.max_depth and self.budget > 2:
             choices += [('if', 14), ('while', 7), ('foreach', 9), ('arith_guard', 3)]
         if self.loop_depth > 0:
@@ -1216,6 +1258,80 @@ class ProgGen(object):
             return [['assign', name, e]]
         return [['call', e]]
 
+    def cond_with_call(self, extra=(), pure=False):
+        """a boolean expression whose value depends on the result of an invocation"""
+        r = self.rng
+        cands = [c for c in self.calls if c['ret'] and (c['pure'] or not (pure or not self.allow_mutation))]
+        r.shuffle(cands)
+        for c in cands:
+            e = self.gen_call(c, 1, extra)
+            if e is None:
+                continue
+            if c['ret'] == 'boolean':
+                return e if r.random() < 0.6 else ['un', 'not', e]
+            if c['ret'] == 'integer':
+                other = self._int(1, True, extra)
+                return ['bin', r.choice(['<', '<=', '>', '>=', '==', '!=']), e, other]
+            return ['bin', r.choice(['==', '!=', '<']), e, self._str(1, True, extra)]
+        return None
+
+    def st_if_call(self, depth):
+        keep = self.call_sites
+        self.call_sites = max(self.call_sites, 1)
+        cond = self.cond_with_call()
+        self.call_sites = min(keep, self.call_sites)
+        if cond is None:
+            return None
+        base = self.snapshot()
+        thn = self.nested_block(depth)
+        end = self.snapshot()
+        self.merge([base, end])
+        return [['if', cond, thn, [], None]]
+
+    def st_while_call(self, depth):
+        r = self.rng
+        keep = self.call_sites
+        self.call_sites = max(self.call_sites, 1)
+        extra_cond = self.cond_with_call(pure=self.foreach_depth > 0)
+        self.call_sites = min(keep, self.call_sites)
+        if extra_cond is None:
+            return None
+        w = self.fresh('w')
+        self.declare(w, V('integer', frozen=True))
+        pre = [['assign', w, ['int', 0]]]
+        self.enter_loop()
+        cond = ['bin', 'and', ['bin', '<', ['var', w], ['int', r.choice([1, 2, 2, 3])]], extra_cond]
+        entry = self.snapshot()
+        body = self.nested_block(depth, prelude=[['assign', w, ['bin', '+', ['var', w], ['int', 1]]]])
+        end = self.snapshot()
+        self.leave_loop()
+        self.merge([entry, end])
+        return pre + [['while', cond, body]]
+
+    def st_select_where_call(self, depth):
+        r = self.rng
+        cls = r.choice(self.cls_names)
+        keep = self.call_sites
+        self.call_sites = max(self.call_sites, 1)
+        self.pure_only += 1
+        try:
+            wh = self.cond_with_call(extra=[(['selected'], cls)], pure=True)
+        finally:
+            self.pure_only -= 1
+        self.call_sites = min(keep, self.call_sites)
+        if wh is None:
+            return None
+        if r.random() < 0.5:
+            wh = ['bin', r.choice(['and', 'or']), wh, self._bool(1, True, extra=[(['selected'], cls)])]
+        card = r.choice(['any', 'many', 'many'])
+        if card == 'many':
+            name = self.fresh(cls.lower() + 's')
+            self.declare(name, V('set', cls))
+        else:
+            name = self.target_inst_var(cls)
+            self.declare(name, V('inst', cls, ne=False))
+        return [['select_from', card, name, cls, wh]]
+
     def nested_block(self, depth, prelude=(), min_stmts=1):
         self.scopes.append({})
         b = self.gen_block(depth + 1, min_stmts=min_stmts, prelude=prelude)
@@ -1400,7 +1516,7 @@ def _nonliteral_leaves(e):
 def _bits(e, cur):
     k = e[0]
     if k == 'int':
-        return 5
+        return max(5, abs(e[1]).bit_length() + 1)
     if k == 'bin':
         a, b = _bits(e[2], cur), _bits(e[3], cur)
         if e[1] == '*':
